@@ -48,6 +48,11 @@ Proof. exact tv_nonneg. Qed.
 Theorem C17_tv_uniform : forall frame, Forall (fun img => exists c, uniform_img c img) frame -> tv frame = 0%R.
 Proof. exact tv_uniform. Qed.
 
+Theorem C17_ms_tv_nonneg : forall levels, (0 <= ms_tv levels)%R.
+Proof. exact ms_tv_nonneg. Qed.
+Theorem C17_ms_tv_uniform : forall levels, Forall (Forall (fun img => exists c, uniform_img c img)) levels -> ms_tv levels = 0%R.
+Proof. exact ms_tv_uniform. Qed.
+
 (* ---- PSNR grows as the error shrinks *)
 Theorem C17_psnr_antitone : forall peak m1 m2, (0 < peak -> 0 < m1 -> m1 < m2 -> psnr peak m2 < psnr peak m1)%R.
 Proof. exact psnr_antitone. Qed.
@@ -55,8 +60,18 @@ Proof. exact psnr_antitone. Qed.
 (* ---- speckle contrast (intensity windows of non-zero mean) *)
 Theorem C17_speckle_nonneg : forall ws, (0 <= speckle_loss ws)%R.
 Proof. exact speckle_loss_nonneg. Qed.
-Theorem C17_speckle_uniform : forall ws, Forall (fun w => w <> [] /\ exists c, Forall (eq c) w) ws -> speckle_loss ws = 0%R.
+(* uniform windows of NON-ZERO intensity (sigma / mean is 0 / 0 on a dark window: see C17_speckle_finite_refuted) *)
+Theorem C17_speckle_uniform : forall ws, Forall (fun w => w <> [] /\ exists c, c <> 0%R /\ Forall (eq c) w) ws -> speckle_loss ws = 0%R.
 Proof. exact speckle_loss_uniform. Qed.
+Theorem C17_speckle_uniform_window : forall c w, w <> [] -> c <> 0%R -> Forall (eq c) w -> speckle_defined w /\ speckle_c w = 0%R.
+Proof. exact speckle_uniform. Qed.
+(* "finite for all valid inputs" fails for speckle contrast: a dark window is a non-negative intensity outside the
+   domain of sigma / mean (the code returns NaN; open finding C17-speckle-nan-dark-window) ... *)
+Theorem C17_speckle_finite_refuted : exists w, w <> [] /\ Forall (fun x => 0 <= x)%R w /\ ~ speckle_defined w.
+Proof. exact speckle_undefined_dark. Qed.
+(* ... the strongest true statement: strictly positive intensities are inside it *)
+Theorem C17_speckle_finite_partial : forall w, w <> [] -> Forall (fun x => 0 < x)%R w -> (0 < win_mean w)%R.
+Proof. exact speckle_defined_pos. Qed.
 Theorem C17_speckle_variance_nonneg : forall w, (0 <= win_var w)%R.
 Proof. exact win_var_nonneg. Qed.
 Theorem C17_speckle_clamp_noop : forall w, Rmax 0 (win_var w) = win_var w.
@@ -79,6 +94,30 @@ Proof. exact hist_nonneg. Qed.
 Theorem C17_hist_bins_in_range : forall bins lo hi x i, (0 < bins)%Z -> (lo < hi)%Q -> bin_of bins lo hi x = Some i -> (0 <= i < bins)%Z.
 Proof. exact bin_of_range. Qed.
 
+(* ---- values of the gaze-contingent losses, under the contract that the pooled statistics, fovea mask, blur and
+   metamer are deterministic functions (arbitrary ones): non-negative, zero at identity *)
+Theorem C17_stats_loss_nonneg : forall a b, (0 <= stats_loss a b)%R.
+Proof. exact stats_loss_nonneg. Qed.
+Theorem C17_stats_loss_identity : forall a, stats_loss a a = 0%R.
+Proof. exact stats_loss_refl. Qed.
+Theorem C17_metameric_value_nonneg : forall Img Gz (pix : Img -> list R) (statsmaps : Img -> Gz -> list (list R)) (fovea : Gz -> list R) fw img tgt g,
+  (0 <= fw)%R -> (0 <= met_value pix statsmaps fovea fw img tgt g)%R.
+Proof. exact met_value_nonneg. Qed.
+Theorem C17_metameric_value_identity : forall Img Gz (pix : Img -> list R) (statsmaps : Img -> Gz -> list (list R)) (fovea : Gz -> list R) fw img g,
+  met_value pix statsmaps fovea fw img img g = 0%R.
+Proof. exact met_value_identity. Qed.
+Theorem C17_blur_lowpass_value_nonneg : forall Img Gz (blurf : Img -> Gz -> list R) img tgt g, (0 <= blur_lowpass_value blurf img tgt g)%R.
+Proof. exact blur_lowpass_nonneg. Qed.
+Theorem C17_blur_lowpass_value_identity : forall Img Gz (blurf : Img -> Gz -> list R) img g, blur_lowpass_value blurf img img g = 0%R.
+Proof. exact blur_lowpass_identity. Qed.
+Theorem C17_blur_match_value_nonneg : forall Img Gz (pix : Img -> list R) (blurf : Img -> Gz -> list R) img tgt g, (0 <= blur_match_value pix blurf img tgt g)%R.
+Proof. exact blur_match_nonneg. Qed.
+Theorem C17_metamer_mse_value_nonneg : forall Img Gz (pix : Img -> list R) (metam : Img -> Gz -> list R) img tgt g, (0 <= metamer_mse_value pix metam img tgt g)%R.
+Proof. exact metamer_mse_nonneg. Qed.
+Theorem C17_metamer_mse_value_zero : forall Img Gz (pix : Img -> list R) (metam : Img -> Gz -> list R) img tgt g,
+  pix img = metam tgt g -> metamer_mse_value pix metam img tgt g = 0%R.
+Proof. exact metamer_mse_zero. Qed.
+
 (* ---- call history: a loss object returns what a fresh object returns, for every history of calls, gaze
    lists edited in place and tensors edited in place, IF AND ONLY IF the cache keys contain every argument
    the cached value depends on (and hold it by value) *)
@@ -94,6 +133,18 @@ Theorem C17_metameric_history_independent : history_independent (met_step repair
 Proof. exact (met_sound repaired eq_refl). Qed.
 Theorem C17_metamer_mse_history_independent : history_independent (mse_step repaired) mse_init.
 Proof. exact (mse_sound repaired eq_refl). Qed.
+(* cache hits of the repaired discipline: reuse happens exactly when the stored key equals the call's arguments *)
+Theorem C17_lod_hit_iff_key : forall e s sh g, rvb_ok s ->
+  (rvb_hit e s sh g = true <-> s = Some (sh, GVal (gaze_at e g), Lod sh (gaze_at e g))).
+Proof. exact rvb_hit_iff_key. Qed.
+Theorem C17_lod_miss_recomputes : forall d e s sh g, rvb_hit e s sh g = false -> snd (rvb_lookup d e s sh g) = Lod sh (gaze_at e g).
+Proof. exact rvb_miss_recomputes. Qed.
+Theorem C17_metameric_reuse_iff_key : forall e c kg st rvb i t g, c_shape (tensor_at e i) = c_shape (tensor_at e t) ->
+  (nth 0 (met_events repaired e (Some (c, kg, st), rvb) i t g) 1%Z = 0%Z <-> c = tensor_at e t /\ kg = gaze_at e g).
+Proof. exact met_reuse_iff_key. Qed.
+Theorem C17_metamer_mse_reuse_iff_key : forall e c kg m rvb i t g, c_shape (tensor_at e i) = c_shape (tensor_at e t) ->
+  (nth 0 (mse_events repaired e (Some (TVal c, kg, m), rvb) i t g) 1%Z = 0%Z <-> c = tensor_at e t /\ kg = gaze_at e g).
+Proof. exact mse_reuse_iff_key. Qed.
 Theorem C17_metameric_fresh_descriptor : forall e i t g, c_shape (tensor_at e i) = c_shape (tensor_at e t) ->
   snd (met_step repaired e met_init i t g) =
   MetOut (tensor_at e i) (Lod (c_shape (tensor_at e t)) (gaze_at e g)) (Stats (tensor_at e t) (Lod (c_shape (tensor_at e t)) (gaze_at e g))).
